@@ -150,6 +150,47 @@ CHECKS = [
         "note": "float32 collections through copy()/storage read-back yield float64 (documented automatic dtype): recorded as observation.",
     },
     {
+        "property_id": "C16",
+        "category": "exploration",
+        "technique": "bounded-exhaustive enumeration of (grid, rank, bc, fill) x full point lattices x every unit basis field against an independent multilinear interpolant; insertion against exact integrals",
+        "text": "For every (grid with 1-3 axes incl. periodic mixes, curvilinear and 1-cell axes, rank 0-2, bc in none/value/derivative/"
+        "periodic, fill) the full product of a 15-54 value per-axis point lattice (centres, faces, +-1e-9, quarter points, boundary "
+        "strips, seams +- period, outside near/far) is interpolated singly and in batches for the zero field, EVERY unit basis field, "
+        "the affine basis and a generic field and compared with an independently written multilinear interpolant (constant "
+        "extension without bc, modelled ghost cells with bc); range, period invariance, DomainError/fill outside, linear approach "
+        "to the imposed boundary value; field.insert and the backend inserter raise the integral by exactly the amount at every "
+        "interior lattice point on every grid type; compiled interpolators/inserters agree with the interpreted ones.",
+        "note": "Points within 1e-9 of the boundary are not decided for membership; corner strips with bc are counted only; the "
+        "ghost-cell inserter on non-uniform grids is a listed known finding. " + _MODES,
+    },
+    {
+        "property_id": "C17",
+        "category": "exploration",
+        "technique": "bounded-exhaustive enumeration of all decompositions of small grids; operator equivalence as identity of linear maps by basis enumeration; all interleavings of the ghost-cell exchange over a mailbox",
+        "text": "Every decomposition (c_1..c_d), 1 <= c_k <= N_k, of grids with 1-3 axes (all classes, holes, periodic mixes): exact "
+        "tiling (bounds, shapes, volumes, coordinates), extract/combine of field data bitwise inverse with and without ghost cells, "
+        "class/label/dtype of sub-fields, neighbour relations against geometric adjacency; for every registered operator and option "
+        "the sub-grid operators combined equal the whole-grid operator as linear maps (zero, every unit vector of the padded array, "
+        "superposition) and end to end for 7 BC classes; transferred outer-face BCs give the same ghost cells.  The _MPIBC "
+        "send/receive bookkeeping is executed for all nodes over a mailbox standing in for pde.tools.mpi and ALL interleavings of the "
+        "nodes' recorded programs are explored (ambiguous receives, deadlock, left-over messages, order dependence, equality with serial).",
+        "note": "Real MPI and the numba_mpi backend are absent; the exchange is explored with a stand-in.  The anti-periodic wrap face "
+        "under the exchange is a listed known finding; radial splits of cylinders etc. are loud refusals. " + _MODES,
+    },
+    {
+        "property_id": "C18",
+        "category": "exploration",
+        "technique": "bounded-exhaustive enumeration of (grid, BC assignment) problems; operator extracted by basis enumeration; every basis right-hand side (affine solve) incl. incompatible ones",
+        "text": "4303 (quick) / 29834 (thorough) problems: all grid classes with 2-4 cells per axis x all ordered pairs of 8 scalar + 3 "
+        "per-face BC kinds on the primary axis x a rotating covering choice on the others.  The discrete operator A u + b is extracted "
+        "from field.laplace by basis enumeration (independent of the scipy matrices), the problem is classified singular / "
+        "non-singular, and the solver is run on zero and EVERY unit right-hand side (non-singular) resp. on a basis of the range and on "
+        "incompatible right-hand sides (singular): returned fields must satisfy the discrete equation at the solver's own acceptance "
+        "level, incompatible problems must raise; the sparse matrix route is compared entry-wise with the operator; "
+        "solve_laplace_equation equals Poisson with zero rhs.",
+        "note": "Singular-compatible right-hand sides may be refused (counted); tolerance 2e-5 follows the solver's own 1e-5 acceptance test. " + _MODES,
+    },
+    {
         "property_id": "C19",
         "category": "exploration",
         "technique": "bounded-exhaustive enumeration of coordinate systems x point lattices and of all unit component fields through every route that uses a component order",
